@@ -14,16 +14,23 @@ LEVEL_TEXT = ("Theorems over the reals, for ALL sizes and ALL kinematic forests 
               "back-substitution `_small_cholesky_solve` solves U^T U x = y for block sizes 2 and 3; the regenerated `mul_m` gather kernel stores the row sum over its index lists; every cell a "
               "regenerated `_M` / `_tendon_armature` task writes lies in the CSR row of its own dof (all models; so tasks of one launch write disjoint cells). On the real code: d.M vs MuJoCo's M, eigenvalues, "
               "float64 residuals of solve_m / factor_solve_i / factor_solve_lu against the stored matrix, reconstruction of M from every stored factor block, mul_m, qLD vs MuJoCo's qLD, "
-              "for every layout m_block_layout produces (compact, scalar, tile, sparse), sizes 1..>64 including 6/7/64/65, nworld > 1.")
+              "for every layout m_block_layout produces (compact, scalar, tile, sparse), sizes 1..>64 including 6/7/64/65, nworld > 1; on every seed, forced in rotation, models "
+              "MIXING the layouts in one factor buffer (one or two trees above the sparse threshold + diagonal blocks with M_ii != 1 of six kinds + scalar and tile blocks, compact dofs before / "
+              "between / after the sparse dofs), and on those the consumers inside the real pipeline: every factor_solve_i / solve_m call of forward (qacc_smooth), euler (M + h B) and "
+              "implicitfast (M - h qDeriv) is tapped and its x checked per tree against the matrix and right-hand side it was given (backward error + distance to the float64 dense solve).")
 TECHNIQUE = ('Lean 4 theorems over a hand-written model of sparse L^T D L factor/solve (Model/LDL.lean) refined by kernels regenerated from source (_qLD_acc, _qLDiag_div, mul_m, _M); fused/tile kernels compared by replay; oracle: float64 residuals vs mujoco.mj_fullM')
 LEVEL_NOTE = ("C21_partial: the fused solve kernel, the scalar/tile Cholesky factorisation kernels and the sparse LU kernel are nested closures that are not in Gen (listed as missing); the "
               "level-parallel model of the fused solve is hand-written (Model/LDL.lean) and tied to the code by the Python replay of the same elementary updates against the real solve_m in this "
-              "module; dense (scalar for general size, tile) and LU paths are covered by the oracle only. Pivots != 0 is a hypothesis (that SPD implies positive pivots is not proved); positive "
+              "module; dense (scalar for general size, tile) and LU paths are covered by the oracle only; that the passes of one solve touch only the dofs of their own layout (the sentinel "
+              "tests on qLD_block_adr in the fused sparse kernel and the block kernels) is not a theorem: it is decided by the oracle on the mixed-layout models (a dof scaled twice by D shows as a "
+              "residual on the compact block). Pivots != 0 is a hypothesis (that SPD implies positive pivots is not proved); positive "
               "definiteness of the CRB matrix itself is sampled (eigenvalues). Launch = net effect of its tasks is argued, not derived. History: this check found (kernel interception of `_M` on "
               "models with compact blocks; d.M vs MuJoCo with tendon armature over two aligned slides) that `_M` / `_tendon_armature` left the one-cell CSR row of MuJoCo's simple dofs; repaired in "
               "/repo commit 'fix: _M and _tendon_armature walked past the row of a simple dof (tendon armature landed on another dof's diagonal)'; the trigger model is kept as a regression case "
               "that runs first. Trusted: Lean kernel + Mathlib, translator.")
-ASSUMPTIONS = ["backward-error tolerances: residual <= 64 n eps32 |M| |x| (Higham Thm 10.4 constant for Cholesky/LDL of an SPD matrix is ~ 4n(3n+1) eps in the worst case, ~n eps in practice)",
+ASSUMPTIONS = ["tapped pipeline calls: the matrix / right-hand side read from the argument arrays just before the call are what the routine solves (it does not modify them before use); "
+               "forward error bound = backward bound * cond(block); mixed-model step vs mj_step: 5e-3 (float32 qacc through a 65..72-dof chain)",
+               "backward-error tolerances: residual <= 64 n eps32 |M| |x| (Higham Thm 10.4 constant for Cholesky/LDL of an SPD matrix is ~ 4n(3n+1) eps in the worst case, ~n eps in practice)",
                "d.M vs MuJoCo: 5e-5 relative to max|M| (float32 CRB vs float64)"]
 
 EPS = float(np.finfo(np.float32).eps)
@@ -105,6 +112,64 @@ def _gen_model(rng, sizes, jac, integrator="Euler", damping=False):
 </mujoco>"""
 
 
+COMPACT_KINDS = ["hinge1", "free-sphere", "slide1", "free-box", "slides", "ball0"]
+
+
+def _compact_tree(rng, kind, damping=False):
+  """a tree whose block of M is DIAGONAL (MuJoCo: M_rownnz == 1 on every dof; m_block_layout: compact, no packed factor, solved as x = D y) with
+  diagonal entries away from 1 (random density / armature); whether the block really is compact and M_ii != 1 is read off the model in _check_model"""
+  pos = rng.uniform(-1.0, 1.0, size=3)
+  head = f'<body pos="{pos[0]:.3f} {pos[1]:.3f} {pos[2] + 1.5:.3f}">'
+  dens = rng.uniform(1500, 6000)
+  ax = rng.normal(size=3)
+  ax /= np.linalg.norm(ax)
+  axs = f"{ax[0]:.4f} {ax[1]:.4f} {ax[2]:.4f}"
+  dmp = f' damping="{rng.uniform(0.5, 5.0):.4f}"' if damping else ""     # large enough that M + h B differs from M in float32 on these dofs
+  if kind == "hinge1":      # single-dof tree, M_ii = axis inertia + armature
+    return head + f'<joint type="hinge" axis="{axs}" armature="{rng.uniform(0.05, 0.6):.4f}"{dmp}/><geom type="capsule" fromto="0 0 0 {rng.uniform(.2, .4):.3f} 0 .1" size=".04" density="{dens:.0f}"/></body>'
+  if kind == "slide1":      # single-dof tree, M_ii = mass + armature
+    return head + f'<joint type="slide" axis="{axs}" armature="{rng.uniform(0.0, 0.3):.4f}"{dmp}/><geom type="box" size=".1 .15 .2" pos=".05 0 0" density="{dens:.0f}"/></body>'
+  if kind == "free-sphere":  # simple free body: no children, com at the frame origin
+    return head + f'<freejoint/><geom type="sphere" size="{rng.uniform(.1, .2):.3f}" density="{dens:.0f}"/></body>'
+  if kind == "free-box":     # simple free body with three different principal inertias
+    q = [".5 .5 .5 .5", "1 0 0 0"][int(rng.integers(0, 2))]
+    return head[:-1] + f' quat="{q}"><freejoint/><geom type="box" size=".1 .17 .26" density="{dens:.0f}"/></body>'
+  if kind == "slides":       # aligned slides of one body
+    n = int(rng.integers(2, 4))
+    return head + "".join(f'<joint type="slide" axis="{a}"{dmp}/>' for a in ["1 0 0", "0 1 0", "0 0 1"][:n]) + f'<geom size=".12" density="{dens:.0f}"/></body>'
+  if kind == "ball0":        # ball joint through the com of a sphere
+    return head + f'<joint type="ball" armature="{rng.uniform(0.05, 0.4):.4f}"{dmp}/><geom type="sphere" size=".15" density="{dens:.0f}"/></body>'
+  raise ValueError(kind)
+
+
+def _mixed_model(rng, k, integrator="Euler", damping=False):
+  """forest MIXING the layouts in one model, forced in rotation k: one tree above the sparse threshold (L^T D L region), two or three diagonal (compact) blocks of
+  different kinds, a small coupled block (scalar Cholesky, 2..6 dofs) and a coupled block of 7..20 dofs (tile Cholesky), every sixth k a second sparse tree; the order of the trees rotates, so
+  compact dofs lie before, between and after the sparse dofs and the packed blocks"""
+  big = [65, 70, 66, 72][k % 4]
+  kinds = [COMPACT_KINDS[(k + j * (1 + k // len(COMPACT_KINDS) % 2)) % len(COMPACT_KINDS)] for j in (0, 2, 3)][: 2 + k % 2]
+  parts = [("sparse", _gen_tree(rng, big, branching=[0.0, 0.3][k % 2], armature=True, free_root=k % 3 == 0, damping=damping))]
+  parts += [("compact:" + kd, _compact_tree(rng, kd, damping)) for kd in kinds]
+  if k % 4 != 1:
+    parts.append(("small", _gen_tree(rng, 2 + k % 5, branching=0.3, armature=k % 2 == 0, free_root=False, damping=damping)))
+  if k % 4 != 2:
+    parts.append(("tile", _gen_tree(rng, [7, 12, 20, 9][k % 4], branching=0.3, armature=True, free_root=k % 2 == 1, damping=damping)))
+  if k % 6 == 4:      # two trees in the L^T D L region: compact / packed dofs lie BETWEEN sparse dofs
+    parts.insert(2, ("sparse", _gen_tree(rng, 65, branching=0.0, armature=False, free_root=False, damping=damping)))
+  rot = k % len(parts)
+  order = parts[rot:] + parts[:rot]
+  if k % 2:
+    order = order[::-1]
+  xml = f"""<mujoco>
+  <compiler angle="radian"/>
+  <option jacobian="sparse" integrator="{integrator}" timestep="0.002"><flag contact="disable"/></option>
+  <worldbody>
+{chr(10).join(b for _, b in order)}
+  </worldbody>
+</mujoco>"""
+  return xml, [n for n, _ in order]
+
+
 def _dense(mujoco, mjm, Mcsr):
   out = np.zeros((mjm.nv, mjm.nv))
   mujoco.mju_sym2dense(out, np.ascontiguousarray(Mcsr, dtype=np.float64), mjm.M_rownnz, mjm.M_rowadr, mjm.M_colind)
@@ -155,7 +220,146 @@ def _replay_sparse_solve(mjm, lay, Lreg, Dinv, y):
   return x, sp
 
 
-def _check_model(ctx, acc, rng, xml, tag):
+def _mixed_hits(acc, mjm, blocks, names, M0):
+  """which layout mixtures a model really has (read off m_block_layout and the stored matrix, not off the generator's intent)"""
+  kinds = set(names)
+  if "sparse" in kinds and "compact" in kinds:
+    acc.hit("mixed:sparse+compact")
+    sp = [s for (s, _), n in zip(blocks, names) if n == "sparse"]
+    for (s, z), n in zip(blocks, names):
+      if n == "compact":
+        acc.hit("mixed:compact-dofs-" + ("before" if s < min(sp) else "after" if s > max(sp) else "between") + "-sparse-dofs")
+        dg = np.diag(M0)[s:s + z]
+        acc.hit("mixed:compact-next-to-sparse-with-Mii-away-from-1" if np.all(np.abs(dg - 1.0) > 0.05) else "mixed:compact-next-to-sparse-with-some-Mii~1")
+    if {"scalar", "tile"} <= kinds:
+      acc.hit("mixed:all-four-layouts")
+    elif "scalar" in kinds or "tile" in kinds:
+      acc.hit("mixed:sparse+compact+one-packed-layout")
+  elif "sparse" in kinds and len(kinds) > 1:
+    acc.hit("mixed:sparse+packed-only")
+
+
+def _block_residuals(acc, mujoco, mjm, blocks, names, Acsr, X, B, what, site, trig, replay):
+  """per world and per tree: float64 backward error of x against the matrix the routine was GIVEN (CSR in M's structure) and, per dof, the distance to the float64
+  dense solve of the block (forward error bound = backward bound * cond)"""
+  for w in range(X.shape[0]):
+    A = _dense(mujoco, mjm, Acsr[w])
+    for (s, z), nme in zip(blocks, names):
+      blk = A[s:s + z, s:s + z]
+      ev = np.linalg.eigvalsh(blk)
+      acc.evals += 1
+      if ev.min() <= 0:
+        acc.hit(f"{trig}:block-not-spd-skipped")
+        continue
+      nrm = np.abs(blk).sum(axis=1).max()
+      xb, bb = X[w, s:s + z], B[w, s:s + z]
+      r = np.abs(blk @ xb - bb).max()
+      tol = 64 * z * EPS * (nrm * np.abs(xb).max() + np.abs(bb).max()) + 1e-12
+      xref = np.linalg.solve(blk, bb)
+      fe = np.abs(xb - xref).max()
+      tolx = 64 * z * EPS * (ev.max() / ev.min()) * (np.abs(xref).max() + np.abs(bb).max() / nrm) + 1e-12
+      if not (r <= tol and fe <= tolx):
+        bad = int(s + np.argmax(np.abs(xb - xref)))
+        acc.find(f"{what}: residual |A x - b| = {r:.3g} (bound {tol:.3g}), |x - float64 solve| = {fe:.3g} (bound {tolx:.3g}, worst dof {bad}) on a {nme} block of {z} dofs, layouts in "
+                 f"the model {sorted(set(names))}", site, f"{trig}-{nme}", **replay, world=w, start=s, size=z)
+
+
+class _Tap:
+  """records every call of smooth.factor_solve_i / smooth.solve_m made by the real pipeline (forward's qacc_smooth, euler's M + h B, implicitfast's M - h qDeriv):
+  the matrix handed in, the right-hand side and the returned x"""
+
+  def __init__(self, d):
+    from mujoco_warp._src import smooth
+    self.smooth, self.d, self.calls = smooth, d, []
+
+  def __enter__(self):
+    sm, d = self.smooth, self.d
+    self.orig = (sm.factor_solve_i, sm.solve_m)
+    o_fsi, o_sm = self.orig
+
+    def fsi(m, dd, M, L, D, x, y):
+      Mn, yn = M.numpy().copy(), y.numpy().copy()       # before the call (x may alias nothing, but M / y could be scratch)
+      o_fsi(m, dd, M, L, D, x, y)
+      self.calls.append(("factor_solve_i", M.ptr == d.M.ptr, Mn, x.numpy().copy(), yn))
+
+    def slv(m, dd, x, y):
+      Mn, yn = dd.M.numpy().copy(), y.numpy().copy()
+      o_sm(m, dd, x, y)
+      self.calls.append(("solve_m", True, Mn, x.numpy().copy(), yn))
+    sm.factor_solve_i, sm.solve_m = fsi, slv
+    return self
+
+  def __exit__(self, *a):
+    self.smooth.factor_solve_i, self.smooth.solve_m = self.orig
+    return False
+
+
+def _pipeline_check(ctx, acc, rng, xml, integrator, nworld, split):
+  """the consumers of the factorisation inside the real pipeline, on a model mixing layouts: every factor_solve_i / solve_m call of forward() + the integrator
+  (or step1 + step2: factor_m then solve_m) is tapped and its x checked against the matrix and right-hand side it was given; qvel after the step vs mj_step per world"""
+  import mujoco
+  import mujoco_warp as mjw
+  from mujoco_warp._src import io
+  try:
+    mjm = mujoco.MjModel.from_xml_string(xml)
+    m = mjw.put_model(mjm)
+  except Exception:   # noqa: BLE001
+    acc.hit("pipeline-model-rejected")
+    return
+  lay = io.m_block_layout(mjm)
+  blocks = io._m_blocks(mjm)
+  names = [_layout_name(mjm, lay, s, z) for s, z in blocks]
+  mjd = mujoco.MjData(mjm)
+  qpos = np.zeros((nworld, mjm.nq))
+  qvel = np.zeros((nworld, mjm.nv))
+  ref = np.zeros((nworld, mjm.nv))
+  for w in range(nworld):
+    qp = mjm.qpos0 + rng.normal(size=mjm.nq) * 0.3
+    for j in range(mjm.njnt):
+      a = mjm.jnt_qposadr[j]
+      if mjm.jnt_type[j] == 0:
+        q = rng.normal(size=4); qp[a + 3:a + 7] = q / np.linalg.norm(q)
+      elif mjm.jnt_type[j] == 1:
+        q = rng.normal(size=4); qp[a:a + 4] = q / np.linalg.norm(q)
+    qpos[w], qvel[w] = qp, rng.normal(size=mjm.nv) * 0.5
+    mujoco.mj_resetData(mjm, mjd)
+    mjd.qpos[:], mjd.qvel[:] = qpos[w], qvel[w]
+    mujoco.mj_step(mjm, mjd)
+    ref[w] = mjd.qvel
+  mujoco.mj_resetData(mjm, mjd)
+  d = mjw.put_data(mjm, mjd, nworld=nworld)
+  d.qpos.assign(qpos.astype(np.float32))
+  d.qvel.assign(qvel.astype(np.float32))
+  with _Tap(d) as tap:
+    if split:
+      mjw.step1(m, d)
+      mjw.step2(m, d)
+    else:
+      mjw.step(m, d)
+  replay = dict(xml=xml, qpos=qpos.tolist(), qvel=qvel.tolist(), nworld=nworld, integrator=integrator, split=split)
+  M0 = _dense(mujoco, mjm, tap.calls[0][2][0]) if tap.calls else np.eye(mjm.nv)
+  _mixed_hits(acc, mjm, blocks, names, M0)
+  acc.hit(f"pipeline:{integrator}:{'step1+step2' if split else 'step'}:nworld={nworld}")
+  acc.distinct.add(("pipeline", integrator, split, mjm.nv, tuple(sorted(set(names))), nworld))
+  for fn, is_m, Mn, xn, yn in tap.calls:
+    label = ("forward-qacc_smooth" if is_m else {"Euler": "euler-damping-system", "implicitfast": "implicitfast-system"}.get(integrator, "system")) + ":" + fn
+    acc.hit("tapped:" + label)
+    if not is_m:
+      dg = mjm.M_rowadr + mjm.M_rownnz - 1
+      cp = np.flatnonzero(lay["dof_adr"] == -2)
+      if len(cp) and len(tap.calls) and np.any(np.abs(Mn[:, dg[cp]] - tap.calls[0][2][:, dg[cp]]) > 1e-4 * np.abs(Mn[:, dg[cp]])):
+        acc.hit("tapped:system-matrix-differs-from-M-on-compact-dofs")
+    _block_residuals(acc, mujoco, mjm, blocks, names, Mn.astype(np.float64), xn.astype(np.float64), yn.astype(np.float64),
+                     f"{fn} inside {'step1+step2' if split else 'step'} ({label})", "smooth." + fn, "pipe-" + label.split(":")[0], replay)
+  qv = d.qvel.numpy().astype(np.float64)
+  for w in range(nworld):
+    acc.evals += 1
+    if not np.all(np.isfinite(qv[w])) or not np.allclose(qv[w], ref[w], rtol=5e-3, atol=5e-3 * (1 + np.abs(ref[w]).max())):
+      acc.find(f"{integrator} step of a model mixing layouts {sorted(set(names))} differs from mj_step (max |d qvel| {np.abs(qv[w] - ref[w]).max():.3g}, worst dof "
+               f"{int(np.argmax(np.abs(qv[w] - ref[w])))})", "forward.step", "step-mixed-" + integrator, **replay, world=w)
+
+
+def _check_model(ctx, acc, rng, xml, tag, nworld=None):
   import mujoco
   import warp as wp
   import mujoco_warp as mjw
@@ -173,7 +377,7 @@ def _check_model(ctx, acc, rng, xml, tag):
   except Exception as e:    # noqa: BLE001 - features put_model rejects are outside the domain
     acc.hit(f"put_model-rejected:{type(e).__name__}")
     return
-  nworld = int(rng.choice([1, 1, 2, 3]))
+  nworld = int(rng.choice([1, 1, 2, 3])) if nworld is None else nworld
   mjd = mujoco.MjData(mjm)
   d = mjw.put_data(mjm, mjd, nworld=nworld)
   qpos = np.zeros((nworld, mjm.nq))
@@ -206,6 +410,7 @@ def _check_model(ctx, acc, rng, xml, tag):
     acc.hit("size:" + ("1-5" if z < 6 else "6" if z == 6 else "7" if z == 7 else "8-63" if z < 64 else "64" if z == 64 else "65" if z == 65 else ">65"))
   if len(set(names)) > 1:
     acc.hit("mixed-layouts-in-one-model")
+  _mixed_hits(acc, mjm, blocks, names, _dense(mujoco, mjm, Mw_all[0]))
   acc.hit(f"nworld={nworld}")
   acc.distinct.add((tag, nv, tuple(sorted(set(names))), nworld))
   acc.sample({"nv": nv, "trees": [z for _, z in blocks], "layouts": names, "nworld": nworld})
@@ -427,10 +632,19 @@ def _run(ctx, ncases, rec):
     nt = int(rng.integers(1, 5))
     plan.append([int(rng.choice([1, 2, 3, 4, 5, 6, 7, 8, 12, 20, 31, 32, 33, 40, 63, 64, 65, 66, 90])) if rng.random() < 0.5 else int(rng.integers(1, 30)) for _ in range(nt)])
 
+  nmixed = 4 if ctx.thorough else 2
+
   def scenario():
     # regression cases of the repaired defect first: tendon armature over simple dofs, a simple free body + aligned slides (compact blocks)
     _tendon_case(acc, rng)
     _check_model(ctx, acc, rng, COMPACT_XML, "compact-regression")
+    # forced on every seed, in rotation: models MIXING layouts (a tree above the sparse threshold + diagonal blocks with M_ii != 1 + packed scalar / tile blocks),
+    # 1..3 worlds with different states: factor_m + solve_m, factor_solve_i on M + h B, mul_m, stored factors
+    for j in range(nmixed):
+      k = ctx.seed * nmixed + j
+      xml, order = _mixed_model(rng, k)
+      acc.hit("mixed-order:" + ",".join(o.split(":")[0] for o in order))
+      _check_model(ctx, acc, rng, xml, f"mixed-{k % 12}", nworld=1 + k % 3)
     for c, sizes in enumerate(plan):
       jac = str(rng.choice(["dense", "sparse", "auto"]))
       if sum(sizes) > 60 and jac == "dense" and rng.random() < 0.9:
@@ -443,6 +657,13 @@ def _run(ctx, ncases, rec):
   else:
     scenario()
     kc = None
+  # the consumers inside the real pipeline on mixed-layout models: forward's fused factor_solve_i, euler's M + h B, implicitfast's M - h qDeriv, and the
+  # factor_m -> solve_m path of step1 + step2; integrator x entry point x nworld rotate with the seed
+  for j in range(6 if ctx.thorough else 3):
+    k = ctx.seed * 3 + j
+    integ = ["Euler", "implicitfast"][(k + k // 2) % 2] if j >= 2 else ["Euler", "implicitfast"][(j + ctx.seed) % 2]
+    xml, _ = _mixed_model(rng, k + 5, integrator=integ, damping=True)
+    _pipeline_check(ctx, acc, rng, xml, integ, nworld=1 + (k + 1) % 3, split=(j % 3 == 2))
   for k, integ in enumerate(["implicitfast", "implicit", "Euler"] * (2 if ctx.thorough else 1)):
     # one of the integrators per run gets the mixed layout (packed blocks + a sparse tree), the others small forests
     mixed = (k % 3 == ctx.seed % 3) or rng.random() < 0.3
@@ -455,7 +676,12 @@ RULE = ("forests of 1-4 kinematic trees with prescribed dof counts (boundary siz
         "MuJoCo, eigenvalues, float64 backward error of solve_m / factor_solve_i (M + positive diagonal) / factor_solve_lu (diagonally dominant matrix on the D pattern), mul_m vs M x, "
         "reconstruction of M from the stored factor (U^T U or L^T D L), sparse qLD vs MuJoCo's, replay of the level-parallel solve model vs the real fused kernel; one step of implicitfast / "
         "implicit / Euler-with-damping vs mj_step; regression cases first (tendon armature over two aligned slides of a simple body: d.M vs MuJoCo; simple free body + aligned slides: compact "
-        "blocks under kernel interception of `_M`); distinct = (case, nv, layouts, nworld)")
+        "blocks under kernel interception of `_M`); then on EVERY seed 2 (thorough 4) mixed-layout models by rotation index k = seed * n + j: sparse tree of 65/70/66/72 dofs (chain or branching, "
+        "free root every third), 2-3 compact blocks out of {single hinge + armature, simple free sphere, single slide, simple free box, 2-3 aligned slides, ball through the com} with random density "
+        "(M_ii away from 1 is read off the matrix and counted), scalar block of 2..6 dofs, tile block of 7/12/20/9 dofs, every sixth k a second 65-dof sparse tree, tree order rotated / reversed, "
+        "nworld = 1 + k % 3, through all the per-tree checks above; and 3 (thorough 6) pipeline runs on such models with joint damping (Euler / implicitfast, mjw.step or step1 + step2, "
+        "nworld 1..3, different qpos / qvel per world): each tapped factor_solve_i / solve_m call -> per world and tree |A x - b| <= 64 z eps (|A||x| + |b|) and |x - solve64(A, b)| <= that * cond, "
+        "A = the CSR matrix handed to the call; qvel after the step vs mj_step per world; distinct = (case, nv, layouts, nworld) and (pipeline, integrator, entry, nv, layouts, nworld)")
 
 
 def correspondence(ctx):
